@@ -230,3 +230,269 @@ Example ex_read_garbage :
   = Ok {| e_ver := V1b1; e_uri := []; e_method := []; e_reqh := []; e_status := 0; e_resph := [];
           e_sig := []; e_payload := []; e_taint := false |}.
 Proof. vm_compute. repeat split. Qed.
+
+(* ==== C02, the Verify half ====================================================================
+
+   "... and then verifies at every instant of [date, expires] returning the
+   original un-encoded payload; the verdict is the same before and after the
+   write/read round trip."
+
+   Model: [verify] = Exchange.Verify with its oracles (SHA-256, x509 key
+   identification, signature check, http.StatusText, certificate fetch) as
+   parameters; [mi_encode_payload], [signed_message], [signature_header_value]
+   = the signer's steps.  Proofs: Proofs/SxgRoundtripVerify.v (invariance),
+   Proofs/SxgRoundtripVerifySigned.v (a signed exchange verifies),
+   Proofs/SxgRoundtripVerifyEx.v (runs with SHA-256, witnesses).
+
+   Definitions used in the statements (Proofs/SxgRoundtripVerify*.v), repeated:
+
+     key_stable h k : bool      every entry of the map h whose name equals k up to
+                                letter case has exactly the key canonical_key k
+                                (the key Header.Get(k) looks under)
+     looked_up v                the names Verify looks up in the response map:
+                                the digest header (MI-Draft2 / Digest) and, for b3,
+                                Content-Type, Cache-Control, Expires
+     lookup_stable e : bool  := forallb (key_stable (e_resph e)) (looked_up (e_ver e))
+     canonical_keys h : bool    every key of h is its own canonical_key (a map built
+                                with Header.Add / Set); implies lookup_stable
+     set_sig e v                e with the Signature header value v
+     policy_ok status_known e validity date expires rs : bool :=
+          same_origin validity (e_uri e) is decided and true
+       && post_ok status_known e     b1/b2: method GET or HEAD and no stateful request
+                                     header; b3: IsCacheable; all: no uncached header
+       && (b3: Content-Type present)
+       && negb (e_taint e)
+       && 1 <= rs <= 16384           MI record size
+       && expires - date <= 604800 && date, expires are int64
+     time_ok tsec tnsec         |tsec| < 2^62 and 0 <= tnsec < 10^9
+
+   [lookup_stable] is the only side condition of the invariance theorem and it is
+   needed ([c02_verify_canon_needs_lookup_stable]): http.Header lookups match the
+   map KEY exactly, the signed / written form is case-folded.  No condition on
+   header names (tokens, distinctness) or taint is needed.                          *)
+From WP Require Model.Mice Model.StructHdr Model.CertChain Proofs.SxgVerifySound.
+From WP Require Import Proofs.SxgRoundtripVerify Proofs.SxgRoundtripVerifySigned.
+From WP Require Proofs.SxgVerifyExample Proofs.SxgRoundtripVerifyEx.
+
+(* ---- the verdict is the same before and after ------------------------------------------------ *)
+Theorem c02_verify_canon_invariant :
+  forall (H256 : bytes -> bytes) (x509_key : bytes -> option (option N))
+         (sig_ok : N -> bytes -> bytes -> bool) (status_known : Z -> bool) (fetch : bytes -> R bytes)
+         (e : exchange) (tsec tnsec : Z),
+    lookup_stable e = true ->
+    verify H256 x509_key sig_ok status_known fetch (canon_exchange e) tsec tnsec
+    = verify H256 x509_key sig_ok status_known fetch e tsec tnsec.
+Proof. exact verify_canon_invariant. Qed.
+Print Assumptions c02_verify_canon_invariant.
+
+Theorem c02_verify_canon_invariant_canonical :
+  forall (H256 : bytes -> bytes) (x509_key : bytes -> option (option N))
+         (sig_ok : N -> bytes -> bytes -> bool) (status_known : Z -> bool) (fetch : bytes -> R bytes)
+         (e : exchange) (tsec tnsec : Z),
+    canonical_keys (e_resph e) = true ->
+    verify H256 x509_key sig_ok status_known fetch (canon_exchange e) tsec tnsec
+    = verify H256 x509_key sig_ok status_known fetch e tsec tnsec.
+Proof. exact verify_canon_invariant_canonical. Qed.
+Print Assumptions c02_verify_canon_invariant_canonical.
+
+Theorem c02_verdict_same_after_roundtrip :
+  forall (H256 : bytes -> bytes) (x509_key : bytes -> option (option N))
+         (sig_ok : N -> bytes -> bytes -> bool) (status_known : Z -> bool) (fetch : bytes -> R bytes)
+         (e : exchange) (bs : bytes),
+    readable e = true -> write e = Ok bs -> lookup_stable e = true ->
+    exists e', read bs = Ok e' /\
+      forall tsec tnsec,
+        verify H256 x509_key sig_ok status_known fetch e' tsec tnsec
+        = verify H256 x509_key sig_ok status_known fetch e tsec tnsec.
+Proof. exact verdict_same_after_roundtrip. Qed.
+Print Assumptions c02_verdict_same_after_roundtrip.
+
+(* what a reader returns always satisfies the side condition: from the second
+   generation on nothing changes any more *)
+Theorem c02_read_back_lookup_stable :
+  forall e, readable e = true -> lookup_stable (canon_exchange e) = true.
+Proof. exact read_back_lookup_stable. Qed.
+Print Assumptions c02_read_back_lookup_stable.
+
+Theorem c02_canonical_keys_lookup_stable :
+  forall e, canonical_keys (e_resph e) = true -> lookup_stable e = true.
+Proof. exact canonical_keys_lookup_stable. Qed.
+Print Assumptions c02_canonical_keys_lookup_stable.
+
+(* the lemma behind it: headerValue (the comma-joined list) of a name in the
+   canonical map *)
+Theorem c02_hdr_value_canon :
+  forall (h : headers) (k : bytes),
+    NoDup (map (fun nv => lower (fst nv)) h) ->
+    canonical_key (lower (canonical_key k)) = canonical_key k ->     (* any token k *)
+    key_stable h k = true ->
+    hdr_value (canon_headers h) k = hdr_value h k.
+Proof. exact hdr_value_canon. Qed.
+Print Assumptions c02_hdr_value_canon.
+
+(* the side condition is needed, in both directions: rejected in memory and
+   accepted after Write / Read (Content-Type under the key "content-type"), and
+   accepted in memory but rejected after Write / Read ("cache-control: no-store") *)
+Theorem c02_verify_canon_needs_lookup_stable :
+  exists e1 e2 tsec tnsec,
+    readable e1 = true /\ readable e2 = true /\
+    (exists bs, write e1 = Ok bs) /\ (exists bs, write e2 = Ok bs) /\
+    e_taint e1 = false /\ e_taint e2 = false /\
+    lookup_stable e1 = false /\ lookup_stable e2 = false /\
+    SxgVerifyExample.toy_verify e1 tsec tnsec = Invalid /\
+    SxgVerifyExample.toy_verify (canon_exchange e1) tsec tnsec = Valid SxgVerifyExample.toy_body /\
+    SxgRoundtripVerifyEx.read_back e1 = canon_exchange e1 /\
+    SxgVerifyExample.toy_verify e2 tsec tnsec = Valid SxgVerifyExample.toy_body /\
+    SxgVerifyExample.toy_verify (canon_exchange e2) tsec tnsec = Invalid /\
+    SxgRoundtripVerifyEx.read_back e2 = canon_exchange e2.
+Proof. exact SxgRoundtripVerifyEx.verify_canon_invariant_needs_lookup_stable. Qed.
+Print Assumptions c02_verify_canon_needs_lookup_stable.
+
+(* ---- what the library signs verifies, with the original payload ------------------------------ *)
+Theorem c02_signed_exchange_verifies :
+  forall (H256 : bytes -> bytes) (x509_key : bytes -> option (option N))
+         (sig_ok : N -> bytes -> bytes -> bool) (status_known : Z -> bool) (fetch : bytes -> R bytes),
+    (forall x, List.length (H256 x) = 32%nat) -> (forall x, wfb (H256 x)) ->
+  forall (e0 e1 : exchange) (rs : N) (der cert_url validity : bytes) (date expires : Z)
+         (m sg hdr chain : bytes) (main : CertChain.augcert) (rest : list CertChain.augcert) (kid : N) (tsec tnsec : Z),
+    (* signing, as the library does it *)
+    hdr_values (e_resph e0) (Mice.digest_header_name (mice_of (e_ver e0))) = [] ->
+    mi_encode_payload H256 e0 rs = Ok e1 ->
+    signed_message e1 (Some (H256 der)) validity date expires = Ok m ->
+    signature_header_value H256 e1 [der] cert_url validity date expires sg = Ok hdr ->
+    wfb sg ->
+    (* the certificate chain is served, starts with the signing certificate; the
+       signature the signer obtained verifies under its key *)
+    fetch cert_url = Ok chain ->
+    CertChain.cc_read (fun d => match x509_key d with Some _ => true | None => false end) chain
+      = Ok (main :: rest) ->
+    CertChain.ac_cert main = der ->
+    x509_key der = Some (Some kid) ->
+    sig_ok kid m sg = true ->
+    policy_ok status_known (set_sig e1 hdr) validity date expires rs = true ->
+    (* every instant of [date, expires] *)
+    SxgVerifySound.time_ok tsec tnsec ->
+    (date * 1000000000 <= tsec * 1000000000 + tnsec <= expires * 1000000000)%Z ->
+    verify H256 x509_key sig_ok status_known fetch (set_sig e1 hdr) tsec tnsec
+    = Valid (e_payload e0).
+Proof. exact signed_exchange_verifies. Qed.
+Print Assumptions c02_signed_exchange_verifies.
+
+Theorem c02_signed_exchange_verifies_after_roundtrip :
+  forall (H256 : bytes -> bytes) (x509_key : bytes -> option (option N))
+         (sig_ok : N -> bytes -> bytes -> bool) (status_known : Z -> bool) (fetch : bytes -> R bytes),
+    (forall x, List.length (H256 x) = 32%nat) -> (forall x, wfb (H256 x)) ->
+  forall (e0 e1 : exchange) (rs : N) (der cert_url validity : bytes) (date expires : Z)
+         (m sg hdr chain : bytes) (main : CertChain.augcert) (rest : list CertChain.augcert) (kid : N) (bs : bytes),
+    hdr_values (e_resph e0) (Mice.digest_header_name (mice_of (e_ver e0))) = [] ->
+    mi_encode_payload H256 e0 rs = Ok e1 ->
+    signed_message e1 (Some (H256 der)) validity date expires = Ok m ->
+    signature_header_value H256 e1 [der] cert_url validity date expires sg = Ok hdr ->
+    wfb sg ->
+    fetch cert_url = Ok chain ->
+    CertChain.cc_read (fun d => match x509_key d with Some _ => true | None => false end) chain
+      = Ok (main :: rest) ->
+    CertChain.ac_cert main = der ->
+    x509_key der = Some (Some kid) ->
+    sig_ok kid m sg = true ->
+    policy_ok status_known (set_sig e1 hdr) validity date expires rs = true ->
+    readable (set_sig e1 hdr) = true ->
+    lookup_stable (set_sig e1 hdr) = true ->
+    write (set_sig e1 hdr) = Ok bs ->
+    exists e', read bs = Ok e' /\
+      forall tsec tnsec, SxgVerifySound.time_ok tsec tnsec ->
+        (date * 1000000000 <= tsec * 1000000000 + tnsec <= expires * 1000000000)%Z ->
+        verify H256 x509_key sig_ok status_known fetch e' tsec tnsec = Valid (e_payload e0) /\
+        verify H256 x509_key sig_ok status_known fetch e' tsec tnsec
+        = verify H256 x509_key sig_ok status_known fetch (set_sig e1 hdr) tsec tnsec.
+Proof. exact signed_exchange_verifies_after_roundtrip. Qed.
+Print Assumptions c02_signed_exchange_verifies_after_roundtrip.
+
+(* [lookup_stable] of the signed exchange follows from the caller's response map
+   being canonical (Header.Add keeps it so) *)
+Theorem c02_signed_lookup_stable :
+  forall (H : bytes -> bytes) (e0 e1 : exchange) (rs : N) (hdr : bytes),
+    1 <= rs -> canonical_keys (e_resph e0) = true -> mi_encode_payload H e0 rs = Ok e1 ->
+    lookup_stable (set_sig e1 hdr) = true.
+Proof. exact signed_lookup_stable. Qed.
+Print Assumptions c02_signed_lookup_stable.
+
+(* the verifier's parser recovers exactly the seven parameters the signer wrote *)
+Theorem c02_signature_header_parsed :
+  forall (H : bytes -> bytes) (e : exchange) (der cert_url validity : bytes)
+         (date expires : Z) (sg hdr : bytes),
+    wfb sg -> wfb (H der) ->
+    (-9223372036854775808 <= date < 9223372036854775808)%Z ->
+    (-9223372036854775808 <= expires < 9223372036854775808)%Z ->
+    signature_header_value H e [der] cert_url validity date expires sg = Ok hdr ->
+    exists pi, StructHdr.parse_parameterised_list hdr = Ok [pi] /\
+      extract_signature pi
+      = Some {| s_sig := sg; s_integrity := Mice.integrity_identifier (mice_of (e_ver e));
+                s_cert_url := cert_url; s_cert_sha := H der; s_validity := validity;
+                s_date := date; s_expires := expires |}.
+Proof. exact signature_header_parsed. Qed.
+Print Assumptions c02_signature_header_parsed.
+
+(* "the digest header was absent" cannot be dropped: MiEncodePayload refuses only a
+   non-empty first value; with an empty one it signs and writes an exchange that
+   never verifies *)
+Example c02_signed_exchange_needs_absent_digest :
+  let e0 := SxgVerifyExample.plain V1b3 200 SxgVerifyExample.std_headers [(s2b "Digest", [[]])] in
+  (exists e, SxgVerifyExample.toy_sign e0 SxgVerifyExample.toy_date SxgVerifyExample.toy_expires = Ok e) /\
+  hdr_values (e_resph e0) (s2b "Digest") = [[]] /\
+  policy_ok SxgVerifyExample.toy_status SxgRoundtripVerifyEx.empty_digest SxgVerifyExample.toy_validity
+            SxgVerifyExample.toy_date SxgVerifyExample.toy_expires 16 = true /\
+  SxgVerifyExample.toy_verify SxgRoundtripVerifyEx.empty_digest SxgVerifyExample.toy_date 0 = Invalid /\
+  SxgVerifyExample.toy_verify (SxgRoundtripVerifyEx.read_back SxgRoundtripVerifyEx.empty_digest)
+                              SxgVerifyExample.toy_date 0 = Invalid.
+Proof. exact SxgRoundtripVerifyEx.signed_exchange_needs_absent_digest. Qed.
+
+(* ---- examples ------------------------------------------------------------------------------------ *)
+(* headers in odd letter case, multi-valued fields, b1 / b2 / b3, SHA-256: Valid with
+   the original payload in memory, canonicalised, and after Write / ReadExchange *)
+Example c02_odd_case_same_verdict :
+  let V := SxgVerifyExample.toy_verify in
+  let ok := SxgRoundtripVerifyEx.valid_body in
+  let back := SxgRoundtripVerifyEx.read_back in
+  let d := SxgVerifyExample.toy_date in let x := SxgVerifyExample.toy_expires in
+  let o3 := SxgRoundtripVerifyEx.odd3 in let o2 := SxgRoundtripVerifyEx.odd2 in
+  let o1 := SxgRoundtripVerifyEx.odd1 in
+  (ok (V o3 d 0%Z) = true /\ ok (V (canon_exchange o3) d 0%Z) = true /\ ok (V (back o3) d 0%Z) = true) /\
+  (ok (V o2 x 0%Z) = true /\ ok (V (canon_exchange o2) x 0%Z) = true /\ ok (V (back o2) x 0%Z) = true) /\
+  (ok (V o1 (d + 300000)%Z 999999999%Z) = true /\
+   ok (V (canon_exchange o1) (d + 300000)%Z 999999999%Z) = true /\
+   ok (V (back o1) (d + 300000)%Z 999999999%Z) = true) /\
+  (V o3 x 1%Z = Invalid /\ V (back o3) x 1%Z = Invalid /\
+   V o3 (d - 1)%Z 999999999%Z = Invalid /\ V (back o3) (d - 1)%Z 999999999%Z = Invalid).
+Proof.
+  exact (conj SxgRoundtripVerifyEx.odd3_verdicts
+          (conj SxgRoundtripVerifyEx.odd2_verdicts
+            (conj SxgRoundtripVerifyEx.odd1_verdicts SxgRoundtripVerifyEx.odd3_outside))).
+Qed.
+
+(* the two theorems instantiated (hypotheses satisfiable), for every instant of the window *)
+Example c02_signed_exchange_verifies_inst : forall tsec tnsec,
+  SxgVerifySound.time_ok tsec tnsec ->
+  (SxgVerifyExample.toy_date * 1000000000 <= tsec * 1000000000 + tnsec
+   <= SxgVerifyExample.toy_expires * 1000000000)%Z ->
+  verify SxgRoundtripVerifyEx.polyH SxgVerifyExample.toy_x509 SxgRoundtripVerifyEx.poly_sig_ok
+         SxgVerifyExample.toy_status SxgVerifyExample.toy_fetch
+         (set_sig SxgRoundtripVerifyEx.p1 SxgRoundtripVerifyEx.phdr) tsec tnsec
+  = Valid SxgVerifyExample.toy_body.
+Proof. exact SxgRoundtripVerifyEx.signed_exchange_verifies_inst. Qed.
+
+Example c02_signed_exchange_roundtrip_inst :
+  exists bs e', write (set_sig SxgRoundtripVerifyEx.p1 SxgRoundtripVerifyEx.phdr) = Ok bs /\
+    read bs = Ok e' /\
+    forall tsec tnsec, SxgVerifySound.time_ok tsec tnsec ->
+      (SxgVerifyExample.toy_date * 1000000000 <= tsec * 1000000000 + tnsec
+       <= SxgVerifyExample.toy_expires * 1000000000)%Z ->
+      verify SxgRoundtripVerifyEx.polyH SxgVerifyExample.toy_x509 SxgRoundtripVerifyEx.poly_sig_ok
+             SxgVerifyExample.toy_status SxgVerifyExample.toy_fetch e' tsec tnsec
+      = Valid SxgVerifyExample.toy_body.
+Proof. exact SxgRoundtripVerifyEx.signed_exchange_roundtrip_inst. Qed.
+
+Example c02_odd3_invariant_inst : forall tsec tnsec,
+  SxgVerifyExample.toy_verify (canon_exchange SxgRoundtripVerifyEx.odd3) tsec tnsec
+  = SxgVerifyExample.toy_verify SxgRoundtripVerifyEx.odd3 tsec tnsec.
+Proof. exact SxgRoundtripVerifyEx.odd3_invariant_inst. Qed.
